@@ -63,3 +63,70 @@ def rows_upto(domains, n, *, multiset=True, with_id=False):
                 rs = [[i + 1, *r] for i, r in enumerate(rs)]
             out.append(rs)
     return out
+
+
+# --------------------------------------------------------------------------------------
+# the "full alphabet" world and menu (C01, C08, C11, C14 converse, C19, C20)
+
+F_COLS = [["k", "int"], ["g", "int"], ["x", "int"], ["f", "float"], ["b", "bool"], ["s", "str"]]
+F_ADV = [
+    [[1, 1, 5, 2.5, True, "a"], [2, 1, None, -0.5, None, "b"], [3, None, 2, None, False, "a"],
+     [4, 2, 2, 1.0, True, None], [5, None, None, 0.25, False, "b"]],
+    [[1, 2, 3, 1.5, True, "b"], [2, 2, 3, 1.5, True, "b"], [3, 1, 1, -2.0, None, "a"]],
+    [],
+    [[1, None, None, None, None, None]],
+]
+F_U = [[7, 1, 5, 2.5, True, "a"], [8, None, 2, None, None, "a"], [1, 1, 5, 2.5, True, "a"]]
+
+
+def full_world(t_rows, r_rows=ADV_R, u_rows=F_U):
+    return {"tables": {
+        "T": {"cols": F_COLS, "rows": t_rows},
+        "R": {"cols": R_COLS, "rows": r_rows},
+        "U": {"cols": F_COLS, "rows": u_rows},
+    }}
+
+
+def full_alphabet(st=None, hist=None, *, with_alias=True):
+    T = "T"
+    kT = col(T, "k")
+    ev = [
+        # element-wise
+        ["filter", [["gt", col(T, "x"), lit(1)]]],
+        ["mutate", [["y", ["add", ["mul", col(T, "x"), lit(2)], col(T, "g")]]]],
+        ["mutate", [["x", ["add", Cn("x"), lit(1)]]]],
+        ["select", [Cn("k"), Cn("x"), Cn("g")]],
+        ["arrange", [kT]],
+        ["slice_head", 2, 0],
+        ["group_by", [col(T, "g")]],
+        ["summarize", [["n", ["count_star"]], ["sx", ["sum", col(T, "x")]]]],
+        ["mutate", [["m", ["sum", col(T, "x")]]]],  # aggregate as window (grouping-aware)
+        ["mutate", [["r", ["row_number", {"arrange": [kT]}]]]],
+        ["join", {"src": "R"}, "inner", [["eq", kT, col("R", "k")]]],
+        ["union", {"src": "U"}, False],
+        ["alias"],
+        ["ungroup"],
+        ["filter", [Cn("b")]],
+        ["filter", [["gt", Cn("m"), lit(4)]]],  # on a window column (if there is one)
+        ["mutate", [["p", ["and", ["gt", col(T, "x"), lit(1)], col(T, "b")]]]],
+        ["mutate", [["c", ["case", [[["gt", col(T, "x"), lit(2)], lit("hi")]], col(T, "s")]]]],
+        ["mutate", [["z", ["cast", col(T, "f"), "int"]], ["q", ["truediv", col(T, "x"), lit(2)]]]],
+        ["mutate", [["sh", ["shift", col(T, "x"), 1, None, {"arrange": [kT]}]]]],
+        ["mutate", [["rk", ["rank", {"arrange": [["nulls_last", col(T, "x")]]}]]]],
+        ["mutate", [["m2", ["max", col(T, "x"), {"partition_by": [col(T, "g")]}]]]],
+        ["arrange", [["desc", ["nulls_last", col(T, "x")]], kT]],
+        ["slice_head", 2, 1],
+        ["group_by", [col(T, "b")]],
+        ["summarize", [["mf", ["max", col(T, "f")]], ["c", ["count", col(T, "x")]]]],
+        ["join", {"src": "R"}, "left", [["eq", kT, col("R", "k")]]],
+        ["join", {"src": "R"}, "full", [["eq", kT, col("R", "k")]]],
+        ["union", {"src": "U"}, True],
+        ["drop", [col(T, "s")]],
+        ["rename", [["x", "xx"]]],
+        ["rename", [[col(T, "g"), "x"], [col(T, "x"), "g"]]],
+        ["filter", [["eq", Cn("n"), lit(1)]]],  # on an aggregate column (if there is one)
+        ["mutate", [["w2", ["add", Cn("m"), lit(1)]]]],  # reads a window column
+    ]
+    if not with_alias:
+        ev = [e for e in ev if e[0] != "alias"]
+    return ev
